@@ -133,6 +133,7 @@ func LifecycleScenario(t *rapid.T) sim.CScenario {
 			k++
 			kind := pick(t, "kind", []string{"call", "call", "callresult", "notify", "batch"})
 			st = sim.CStep{Op: kind, K: k, Ctx: pick(t, "ctx", []string{"cancel", "cancel", "deadline"}), D: pick(t, "dl", []int{1000, 3000})}
+			st.Relabel = kind == "call" && rapid.IntRange(0, 2).Draw(t, "relabel") == 0
 			if rapid.IntRange(0, 11).Draw(t, "badparams") == 0 {
 				// refused before anything is sent: no entry to answer
 				st.BadParams = pick(t, "bpkind", []string{"chan", "scalar"})
